@@ -40,6 +40,11 @@ pub enum Creator {
   /// a source that ends at once, gated by a timer that has not fired yet: the timer's worker must go too
   JustTakeUntilTimer,
   JustSampleInterval,
+  /// a sibling input ends the stream while the operator is still subscribing its inputs: the interval is
+  /// subscribed with an observer that is already dead
+  JustAmbInterval,
+  IntervalTakeUntilJust,
+  ErrorMergeInterval,
 }
 
 #[derive(Clone, Copy, Debug, PartialEq)]
@@ -73,6 +78,8 @@ fn applicable(c: Creator, e: Ending) -> bool {
     (HotDebounceFeedback | HotObserveOnFeedback, Retry2 | TakeUntilTimer | AmbNever | First) => false,
     (TimerNotYetFired | IntervalNotYetFired, e) => e == Unsubscribe,
     (JustTakeUntilTimer | JustSampleInterval, e) => matches!(e, SourceComplete | Unsubscribe),
+    (JustAmbInterval | IntervalTakeUntilJust, e) => e == SourceComplete,
+    (ErrorMergeInterval, e) => e == SourceError,
     _ => true,
   }
 }
@@ -143,6 +150,9 @@ fn create(c: Creator, causes: &Causes) -> Built {
     Creator::IntervalNotYetFired => Built { o: observables::interval(ms(40), nt()).map(|x| x as i64), hot: None, connect: None },
     Creator::JustTakeUntilTimer => Built { o: cold().take_until(observables::timer(ms(40), nt())), hot: None, connect: None },
     Creator::JustSampleInterval => Built { o: cold().sample(observables::interval(ms(40), nt())), hot: None, connect: None },
+    Creator::JustAmbInterval => Built { o: cold().amb(&[observables::interval(ms(10), nt()).map(|x| x as i64)]), hot: None, connect: None },
+    Creator::IntervalTakeUntilJust => Built { o: observables::interval(ms(10), nt()).map(|x| x as i64).take_until(observables::just(())), hot: None, connect: None },
+    Creator::ErrorMergeInterval => Built { o: observables::error(err(7)).merge(&[observables::interval(ms(10), nt()).map(|x| x as i64)]), hot: None, connect: None },
     Creator::IntervalRefCount => Built { o: observables::interval(ms(10), nt()).map(|x| x as i64).ref_count().observable(), hot: None, connect: None },
     Creator::IntervalReplay => Built { o: observables::interval(ms(10), nt()).map(|x| x as i64).replay().observable(), hot: None, connect: None },
     Creator::StartWithIntervalRefCount => {
@@ -254,7 +264,7 @@ pub fn exit_scn(c: Creator, e: Ending, twice: bool, q: Option<u32>, t: Option<u3
 pub fn c15_scenarios() -> Vec<Scn> {
   use Creator::*;
   use Ending::*;
-  let creators = [Interval, Timer, HotObserveOn, ColdSubscribeOn, ColdObserveOn, HotDebounce, HotTimeout, IntervalFlatMapObserveOn, ColdObserveOnTwice, IntervalSampleInterval, IntervalPublish, IntervalDelay, IntervalRefCount, IntervalReplay, StartWithIntervalRefCount, StartWithIntervalReplay, HotDebounceFeedback, HotObserveOnFeedback, TimerNotYetFired, IntervalNotYetFired, JustTakeUntilTimer, JustSampleInterval];
+  let creators = [Interval, Timer, HotObserveOn, ColdSubscribeOn, ColdObserveOn, HotDebounce, HotTimeout, IntervalFlatMapObserveOn, ColdObserveOnTwice, IntervalSampleInterval, IntervalPublish, IntervalDelay, IntervalRefCount, IntervalReplay, StartWithIntervalRefCount, StartWithIntervalReplay, HotDebounceFeedback, HotObserveOnFeedback, TimerNotYetFired, IntervalNotYetFired, JustTakeUntilTimer, JustSampleInterval, JustAmbInterval, IntervalTakeUntilJust, ErrorMergeInterval];
   let endings = [SourceComplete, SourceError, Unsubscribe, Take1, First, TakeUntilTimer, AmbNever, Retry2, Contains, ElementAt, TakeWhile, All];
   let mut v = vec![];
   for c in creators {
@@ -268,7 +278,7 @@ pub fn c15_scenarios() -> Vec<Scn> {
       } else if matches!((c, e), (HotObserveOn, Retry2) | (HotTimeout, Retry2) | (HotDebounce, Retry2)) {
         // a re-subscription on the worker thread racing the unsubscribe
         Some(2)
-      } else if matches!(e, Unsubscribe | Take1 | Contains | ElementAt | TakeWhile | All) || matches!(c, JustTakeUntilTimer | JustSampleInterval) {
+      } else if matches!(e, Unsubscribe | Take1 | Contains | ElementAt | TakeWhile | All) || matches!(c, JustTakeUntilTimer | JustSampleInterval | JustAmbInterval | IntervalTakeUntilJust | ErrorMergeInterval) {
         Some(1)
       } else {
         None
